@@ -58,22 +58,14 @@ func (p *Path) choice(n int) int {
 	if n <= 1 {
 		return 0
 	}
-	if p.pos < len(p.prefix) {
-		d := p.prefix[p.pos]
-		p.pos++
-		p.log = append(p.log, d)
-		return int(d.Val)
+	if p.replaying() {
+		return int(p.takeReplay().Val)
 	}
-	if p.newDec >= p.eng.Cfg.MaxDecisions {
-		panic(abort(fmt.Sprintf("unwind: more than %d symbolic decisions on one path", p.eng.Cfg.MaxDecisions)))
-	}
+	p.decisionBudget()
 	for i := 1; i < n; i++ {
-		alt := append(append([]Decision(nil), p.log...), Decision{Val: int64(i), Kind: 'c', Forced: true})
-		p.eng.push(alt)
+		p.fork(Decision{Val: int64(i), Kind: 'c', Forced: true})
 	}
-	p.log = append(p.log, Decision{Val: 0, Kind: 'c', Forced: true})
-	p.pos++
-	p.newDec++
+	p.record(Decision{Val: 0, Kind: 'c', Forced: true})
 	return 0
 }
 
